@@ -168,11 +168,26 @@ func (vc *VC) singleScriptOpt(target *Obligation, model bool, deep bool) string 
 			terms = append(terms, sks...)
 		}
 	}
-	for i, t := range vc.indexTerms {
-		if i >= 12 {
-			break
+	if vc.c == nil || !vc.c.InstGoalOnly {
+		for i, t := range vc.indexTerms {
+			if i >= 12 {
+				break
+			}
+			terms = append(terms, skolem{t, offSort})
 		}
-		terms = append(terms, skolem{t, offSort})
+	}
+	// cut point: position of the target among the items
+	tpos := -1
+	for i, it := range vc.items {
+		if it.Ob == target {
+			tpos = i
+		}
+	}
+	var cut *cutPoint
+	for i := range vc.cuts {
+		if vc.cuts[i].at <= tpos && (cut == nil || vc.cuts[i].at > cut.at) {
+			cut = &vc.cuts[i]
+		}
 	}
 	// quantified hypotheses seen so far (parsed), for bounded instantiation before the goal
 	type qhyp struct {
@@ -263,7 +278,10 @@ func (vc *VC) singleScriptOpt(target *Obligation, model bool, deep bool) string 
 			}
 		}
 	}
-	for _, it := range vc.items {
+	for ii, it := range vc.items {
+		if cut != nil && ii >= vc.entryItems && ii < cut.from {
+			continue // summarised by the cut site's assertions
+		}
 		if it.Ob == nil {
 			if strings.HasPrefix(it.Text, "(assert ") && strings.Contains(it.Text, "(forall ") {
 				emit(it.Text[8 : len(it.Text)-1])
@@ -276,10 +294,19 @@ func (vc *VC) singleScriptOpt(target *Obligation, model bool, deep bool) string 
 		if it.Ob == target {
 			gsx, _ := parseSx(goal)
 			// (=> A B) with quantifiers in A: assume A (so that it is instantiated like any hypothesis), prove B
-			for gsx != nil && gsx.head() == "=>" && len(gsx.L) == 3 && strings.Contains(gsx.L[1].String(), "(forall ") {
-				emit(gsx.L[1].String())
-				gsx = gsx.L[2]
-				goal = gsx.String()
+			if gsx != nil && strings.Contains(goal, "(forall ") {
+				for gsx.head() == "=>" && len(gsx.L) == 3 {
+					ant := gsx.L[1]
+					if ant.head() == "and" {
+						for _, c := range ant.L[1:] {
+							emit(c.String())
+						}
+					} else {
+						emit(ant.String())
+					}
+					gsx = gsx.L[2]
+					goal = gsx.String()
+				}
 			}
 			if len(qhyps) > 0 {
 				instantiateAll(gsx)
